@@ -129,7 +129,8 @@ struct World {
   void tcp_drain() {
     std::vector<int> fds; fds.push_back(cfd);
     srv->impl_->tcp_server_.d_->conns.foreach([&](network::TcpConnection *c) { if (c->sp_buffered_fd_) fds.push_back(c->sp_buffered_fd_->fd().get()); });
-    for (int fd : fds) for (int spin = 0; spin < 2000; spin++) { int q = 0; if (ioctl(fd, SIOCOUTQ, &q) != 0 || q == 0) break; usleep(50); }
+    // SIOCOUTQNSD = bytes not yet sent (unacknowledged bytes do not count: on loopback "sent" means queued at the peer, and a delayed ACK would cost 40 ms)
+    for (int fd : fds) for (int spin = 0; spin < 400; spin++) { int q = 0; if (ioctl(fd, SIOCOUTQNSD, &q) != 0 || q == 0) break; usleep(50); }
   }
   void client_write(const std::string &bytes) {
     size_t off = 0;
